@@ -8,6 +8,8 @@ P="$1"; K="$2"; shift 2
 # ROUND=2 takes the second-round worktrees /tmp/w2_<PROP> and stores as <PROP>-r2m<k>
 if [ "${ROUND:-1}" = 2 ]; then
   SRC="/tmp/w2_$P/mutation/m$K"; TAG="r2m$K"
+elif [ "${ROUND:-1}" = 3 ]; then
+  SRC="/tmp/w3_$P/mutation/m$K"; TAG="r3m$K"
 else
   SRC="/tmp/wt_$P/mutation/m$K"; TAG="m$K"
 fi
